@@ -1239,7 +1239,7 @@ class AstEval:
 
     async def ast_lambda(self, arg):
         """Evaluate lambda definition by compiling a regular function."""
-        name = "__lambda_defn_temp__"
+        name = "<lambda>"  # what Python calls it (tracebacks); cannot collide with a variable
         await self.aeval(
             ast.FunctionDef(
                 args=arg.args,
